@@ -280,6 +280,58 @@ def run(ctx):
     # ---- C02.n every captured argument is part of the key (shared with C06.d): a call is never answered with a value recorded for another call
     from . import common as _cm2
     _cm2.import_clauses(ctx, res, 'C06', ['C06.d'], 'C02', 'C02.n', 'R-DECISION', 'capture selection table of the key builder', floor=4)
+    # ---- C02.o one output call has one ordinal: the per-alias counter is read once per call and that value is used for the entry and for the
+    # result lookup (a second read can see another thread's increment: the call is answered with another invocation's result)
+    co2 = res.clause('C02.o', 'R-PROV', 'output ordinal read once per call; missing-key errors raised only for absent keys', floor=2)
+    _f, _d, ocl = roles.closures['output']
+    reads2 = [n for n in ast.walk(ocl.node) if isinstance(n, ast.Subscript) and isinstance(n.ctx, ast.Load) and
+              isinstance(n.value, ast.Attribute) and isinstance(n.value.value, ast.Name) and n.value.value.id == 'self' and n.value.attr == roles.counter]
+    co2.instance('output decorator reads self.%s[alias] once (%d read(s))' % (roles.counter, len(reads2)), ocl.qualname, len(reads2) == 1)
+    if len(reads2) != 1:
+        res.add(Finding('C02', 'C02.o', 'R-PROV', ocl.file, ocl.qualname, reads2[1].lineno if len(reads2) > 1 else ocl.node.lineno,
+                        '%d reads of the invocation counter' % len(reads2),
+                        'the per-alias invocation counter is read %d times in one output call: between two reads another thread can increment it, so the '
+                        'entry is captured under one ordinal and the result looked up under another (a call is answered with another call\'s result)' % len(reads2)))
+    # the reader says "no such key" only when no candidate key is in the recording: never as a translation of some other failure
+    rd2 = roles.reader
+    translated = [r_ for h_ in ast.walk(rd2.node) if isinstance(h_, ast.ExceptHandler) for r_ in ast.walk(h_)
+                  if isinstance(r_, ast.Raise) and r_.exc is not None and 'KeyError' in norm(r_.exc)]
+    co2.instance('replay reader raises the missing-key error for absent keys only', rd2.qualname, not translated)
+    for r_ in translated[:1]:
+        res.add(Finding('C02', 'C02.o', 'R-PROV', rd2.file, rd2.qualname, r_.lineno, norm(r_)[:100],
+                        'the replay reader turns another failure (a data handler that cannot restore the entry) into the missing-key error: the missing-key '
+                        'policy (substitute value / run the original) is then applied to a call that does have an entry in the recording'))
+    # ---- C02.p replay wins over recording: play() called from inside a recorded operation (both a played and an active recording exist)
+    cp2 = res.clause('C02.p', 'R-TYPESTATE', 'with a recording in progress AND a recording being replayed, the decorators replay: no body runs, nothing is '
+                     'written to the recording in progress', floor=3)
+    for kind in ('operation', 'input', 'output'):
+        db = rm.run_closure(ctx, kind, 'both', track_free=OPTS)
+        fac_b, _deco_b, cl_b = roles.closures[kind]
+        hr_b = handler_roles(cl_b, roles) if kind != 'operation' else {}
+        bad = None
+        for n, s in db.exits:
+            e_, i_ = rm.initial_flags(db, s)
+            if i_ is True:
+                continue
+            stores = s.extra.get(('n', 'store:active-recording'), 0) + s.extra.get(('n', 'iface:Recording.add_metadata'), 0)
+            hs = {hr_b.get(h) for h in s.extra.get('root_handlers', frozenset())}
+            bc = body_calls(s)
+            if kind == 'operation':
+                wrong = bc != 1 or db.n(s, 'enter:start_recording') or stores
+            else:
+                wrong = stores or (bc and 'missing' not in hs)
+            if wrong and bad is None:
+                bad = (n, s, bc, stores)
+        cp2.evaluations += db.visited_pairs
+        cp2.instance('%s decorator with both recordings present: replays' % kind, cl_b.qualname, bad is None)
+        if bad:
+            n, s, bc, stores = bad
+            res.add(Finding('C02', 'C02.p', 'R-TYPESTATE', cl_b.file, cl_b.qualname, cl_b.node.lineno,
+                            '%s decorator, played + active recording: body calls=%d stores=%d' % (kind, bc, stores),
+                            'when play() is called from inside a recorded operation both a played and an active recording exist: the %s decorator then '
+                            'records instead of replaying (the wrapped function runs / the recording in progress is written), so the replayed operation '
+                            'touches the outside world and the recording being made is polluted' % kind,
+                            witness=db.path_to(n, s), entry=cl_b.qualname, exit=rm.exit_kind(n)))
     return res
 
 
